@@ -229,7 +229,7 @@ PROPS["C01"] = {
 PROPS["C11"] = {
     "level": "other",
     "engine": "dmx-facts + panic-residue",
-    "rules": [p_wire.dom_errcls, p_wire.gate_hint, p_macro.dom_macro, p_plan.sync, only(p_charset.tab_eci, ECI_ENC, "writer"), p_b256.b256_sync, p_panic.residue_rule("encode"), only(p_panic.invariants, lambda k: k in ("log-range", "data>=blocks"), "shared tables"), p_panic.invariants_encode, p_panic.t_loops_encode],
+    "rules": [p_wire.dom_errcls, p_wire.gate_hint, only(p_macro.dom_macro, lambda k: k == "guards-present" or k.startswith(("reslice:", "push:")), "guards of the macro re-slice"), p_plan.sync, only(p_charset.tab_eci, lambda k: k == "write-ranges", "writer panic domain"), only(p_b256.b256_sync, lambda k: k in ("run-limit", "run-counter"), "run limit"), p_panic.residue_rule("encode"), only(p_panic.invariants, lambda k: k in ("log-range", "data>=blocks"), "shared tables"), p_panic.invariants_encode, p_panic.t_loops_encode],
     "explanation": "Clause-level claim. Decided: DOM-ERRCLS - the error is SymbolListEmpty iff the list is empty (its only constructions are "
                    "on the true edge of symbol_list.is_empty(), which is tested first, and in the reservation-hint wrapper, which GATE-HINT "
                    "shows is Some for every non-empty list); DOM-MACRO - the macro re-slice cannot panic for short envelopes; SYNC - planner "
